@@ -405,7 +405,7 @@ let () =
           let seed = r 0 in
           if tag ob = "hang" then begin
             count "cycle_hangs";
-            propfail id (here () ^ " FindCycle did not return within the watchdog's 400 ms (the walk back through the parent map does not end)" ^ names_txt)
+            propfail id (here () ^ " FindCycle did not return: it allocated 1.5 GiB or ran for 20 s + 100 us per element of the case (the walk back through the parent map does not end)" ^ names_txt)
           end else begin
           (match tag ob with "cycle" -> () | _ -> shape ());
           if use_model && is_node st.(g) nobody then
